@@ -81,3 +81,80 @@ pub fn scalar_container<K1: Kind, K2: Kind>() {
     assert!(i.is_err(), "indexing a scalar is an error");
     core::mem::forget((r, i));
 }
+
+// ---------------------------------------------------------------------------------------
+// Lists of at most ONE element. A heap Vec of two or more CelValues cannot be read back by
+// the model checker (DESIGN.md B1), and an element access under a *symbolic* index clones a
+// value of unknown kind; so the index is concrete per query (a stated enumeration) while the
+// element is fully symbolic.
+
+/// `[x][i]` for a concrete int index i
+pub fn list1_index_int(i: i64) {
+    let x: i64 = any();
+    let r = CelValue::List(vec![CelValue::Int(x)]).index(CelValue::Int(i));
+    witness!(true, "reached");
+    if i == 0 || i == -1 {
+        assert!(matches!(r, CelValue::Int(y) if y == x), "l[i] is the element for 0 <= i < size and -size <= i < 0");
+    } else {
+        assert!(r.is_err(), "l[i] outside -size..size is an error");
+    }
+    core::mem::forget(r);
+}
+
+/// `[x][i]` for a concrete uint index i
+pub fn list1_index_uint(i: u64) {
+    let x: i64 = any();
+    let r = CelValue::List(vec![CelValue::Int(x)]).index(CelValue::UInt(i));
+    witness!(true, "reached");
+    if i == 0 {
+        assert!(matches!(r, CelValue::Int(y) if y == x), "l[0u] is the element");
+    } else {
+        assert!(r.is_err(), "l[i] with i >= size is an error");
+    }
+    core::mem::forget(r);
+}
+
+/// `[][i]` is an error for every int and uint index
+pub fn list0_index() {
+    let i: i64 = any();
+    let u: u64 = any();
+    let r = CelValue::List(vec![]).index(CelValue::Int(i));
+    let s = CelValue::List(vec![]).index(CelValue::UInt(u));
+    witness!(i < 0, "negative index");
+    assert!(r.is_err() && s.is_err(), "indexing the empty list is an error");
+    core::mem::forget((r, s));
+}
+
+/// a non-integer index into a list is an error
+pub fn list1_index_kind<K: Kind>() {
+    let x: i64 = any();
+    let k = K::sym();
+    let r = CelValue::List(vec![CelValue::Int(x)]).index(k.cel());
+    witness!(true, "reached");
+    assert!(r.is_err(), "a list index that is not an int or uint is an error");
+    core::mem::forget(r);
+}
+
+/// `y in [x]` is `x == y`; `y in []` is false
+pub fn list_in() {
+    let x: i64 = any();
+    let y: i64 = any();
+    let r = CelValue::Int(y).in_(CelValue::List(vec![CelValue::Int(x)]));
+    let e = CelValue::Int(y).in_(CelValue::List(vec![]));
+    witness!(x == y, "member");
+    witness!(x != y, "not a member");
+    assert!(matches!(r, CelValue::Bool(b) if b == (x == y)), "`in` on a list is membership");
+    assert!(matches!(e, CelValue::Bool(false)), "nothing is in the empty list");
+    core::mem::forget((r, e));
+}
+
+/// size of lists with zero and one element
+pub fn list_size() {
+    let x: i64 = any();
+    let s1 = vf::size(CelValue::List(vec![CelValue::Int(x)]), vec![CelValue::Null]);
+    let s0 = vf::size(CelValue::Null, vec![CelValue::List(vec![])]);
+    witness!(true, "reached");
+    assert!(matches!(s1, CelValue::UInt(1)), "size of a one-element list is 1");
+    assert!(matches!(s0, CelValue::UInt(0)), "size of the empty list is 0");
+    core::mem::forget((s1, s0));
+}
